@@ -110,6 +110,10 @@ func (vc *VC) call(fr *Frame, instr ssa.Instruction, c *ssa.CallCommon, st *Stat
 			for _, cs := range fr.spec.Calls {
 				if cs.Callee == name && (cs.Ordinal == -1 || cs.Ordinal == ord) {
 					sites = append(sites, cs)
+					if vc.matchedSites == nil {
+						vc.matchedSites = map[*CallSiteSpec]bool{}
+					}
+					vc.matchedSites[cs] = true
 				}
 			}
 		}
@@ -1890,6 +1894,46 @@ func (vc *VC) loopCallMods(fr *Frame, li *loopInfo, x *ssa.Call, add func(comp, 
 					add(vc.eventComp(exprName(mx.Args[0])), "")
 					continue
 				}
+			}
+			// resolve the location with the ACTUAL argument types of this call (a generic callee's own parameter types
+			// mention its type parameters); only the component matters here
+			nf := len(vc.fatal)
+			denv := &SpecEnv{vc: vc, fr: fr, pkg: vc.eng.pkgByPath(spec.Pkg), st: &State{pc: "true", heap: map[string]string{}}, vars: map[string]Val{}}
+			denv.old = denv.st
+			var pnames []string
+			if callee != nil {
+				origin := callee
+				if callee.Origin() != nil {
+					origin = callee.Origin()
+				}
+				for _, p := range origin.Params {
+					pnames = append(pnames, p.Name())
+				}
+			} else {
+				pnames = append([]string{"self"}, spec.Params...)
+			}
+			var actuals []ssa.Value
+			if c.IsInvoke() {
+				actuals = append(actuals, c.Value)
+			}
+			actuals = append(actuals, c.Args...)
+			for i, a := range actuals {
+				dv := Val{T: "0", Typ: a.Type()}
+				if _, isSl := a.Type().Underlying().(*types.Slice); isSl {
+					dv = Val{Sl: &SliceVal{"0", "0", "0", "0"}, Typ: a.Type()}
+				}
+				if i < len(pnames) && pnames[i] != "" {
+					denv.vars[pnames[i]] = dv
+				}
+				denv.vars[fmt.Sprintf("arg%d", i)] = dv
+			}
+			locs := vc.locsOf(denv, m)
+			vc.fatal = vc.fatal[:nf]
+			if len(locs) > 0 {
+				for _, l := range locs {
+					add(l.Comp, "")
+				}
+				continue
 			}
 			add(vc.coarseComp(spec, m), "")
 		}
